@@ -30,6 +30,11 @@ TABLE = {
             "Held on the generated repositories: rg and git list exactly the same files, across literals, wildcards, classes, '**' forms, anchoring, directory-only patterns, negation, escapes, comments, trailing blanks, nested ignore files and case-insensitive matching.",
             "git 2.39 is the specification; constructs where git itself deviates from gitignore(5) or that globset documents as unsupported are outside the generated grammar (listed in the evidence assumptions).",
             "DESIGN.md §3 C04"),
+    "C05": (True, "exploration",
+            "runtime monitoring of rg --files on generated trees against an executable model of the documented precedence (overrides > .rgignore > .ignore > .gitignore > .git/info/exclude > global > --ignore-file; repository gating; parents; types; hidden), with conflicting rules planted across sources; evidence counts how often each ordered pair of sources was decisive",
+            "Held on the generated (tree, rule placement, flag set, root form) cases: the files rg lists are exactly those the documented decision procedure keeps; every ordered pair of sources decided many cases (counts in the evidence).",
+            "The model encodes my reading of the documentation (ignore crate WalkBuilder docs + rg flag docs); undocumented corners are not generated (listed in the evidence assumptions); rule shapes are restricted so that glob semantics (C04/C12) do not interfere.",
+            "DESIGN.md §3 C05"),
     "C06": (True, "exploration",
             "runtime monitoring: entries recorded from WalkBuilder::build(), from build_parallel() at several thread counts, and from an independent std::fs recursion, compared as multisets on generated trees and option combinations",
             "Held on the generated trees x option combinations: serial and parallel walkers yielded identical duplicate-free (path, depth) multisets, equal to the independent listing where no ignore rules are involved, and link cycles produced loop errors while the walk ended.",
